@@ -7,7 +7,7 @@ rev=""
 if [ "${1:-}" = "-R" ]; then rev="-R"; shift; fi
 [ "${1:-}" = "--" ] && shift
 cd /verif
-if ! git -C /repo apply $rev "$patch"; then echo "PATCH-DOES-NOT-APPLY $patch"; exit 3; fi
+patch=$(realpath "$patch"); if ! git -C /repo apply $rev "$patch"; then echo "PATCH-DOES-NOT-APPLY $patch"; exit 3; fi
 rc=0
 for p in "$@"; do
   out=$(./check "$p" --no-evidence 2>&1); c=$?
